@@ -105,13 +105,13 @@ Definition row_agrees (s l : table) (r : row) : bool :=
       end
   end.
 
-(** recorded disagreements (C20-F1), in two groups with one candidate repair each
-    (fixes/C20-F1a.diff: the schema is wrong; fixes/C20-F1b.diff: the loader does
-    not validate).  The generated file proves that every other row of the current
-    tables agrees; SchemaPinned.v shows that each of these rows disagrees in the
-    tables as they were extracted when the finding was recorded (whether they
-    still do on the current tree is what the replay stream reports on every
-    run). *)
+(** recorded disagreements (C20-F1), in six groups a-f, each with its own repair
+    flag [fixed_F1x] (a: the schema was wrong, 80621e4; b: the loader did not
+    validate, 6c5864d; c: c343928; d: cc49e3a; e: 86b640c; f: open).  The generated
+    file proves that every other row of the current tables agrees; for the
+    repaired groups a, b, c SchemaPinned.v shows that each row disagrees in the
+    tables as they were extracted when the finding was recorded; for the open
+    group f Properties/C20.v shows it on the current tables (C20_F1f_refuted). *)
 Definition known_F1a : list row :=
   [ RType "error_handlers" "www-authenticate";      (* the schema's spelling *)
     RType "error_handlers" "www_authenticate";      (* the loader's (and the documentation's) spelling *)
@@ -138,9 +138,9 @@ Definition known_F1c : list row :=
 
 (** found when the tables got value classes (audit): emptiness of lists/maps.
     Group d (repaired by cc49e3a): the header/cookie finalizers' maps may not be
-    empty for the loader (gt=0) but could for the schema.  Group e (open): the
-    remote authorizer's [expressions] may not be empty for the schema (minItems 1)
-    but may for the loader. *)
+    empty for the loader (gt=0) but could for the schema.  Group e (repaired by
+    86b640c): the remote authorizer's [expressions] may not be empty for the
+    schema (minItems 1) but could for the loader. *)
 Definition known_F1d : list row :=
   [ ROpt "finalizers" "cookie" "cookies";
     ROpt "finalizers" "header" "headers" ].
